@@ -348,6 +348,10 @@ func gstmt1(s ast.Stmt) string {
 		case token.BREAK:
 			return ".brk"
 		case token.CONTINUE:
+			// Go runs the post statement of a three-clause `for` before the next round
+			if n := len(gContPost); n > 0 && gContPost[n-1] != "" {
+				return fmt.Sprintf("(.seq %s .cont)", gContPost[n-1])
+			}
 			return ".cont"
 		}
 		return fmt.Sprintf("(.opaque %s)", leanStr(x.Tok.String()))
@@ -360,7 +364,13 @@ func gstmt1(s ast.Stmt) string {
 	case *ast.ForStmt:
 		// `for { … }` / `for init; cond; post { … }`: loop (ite cond (body; post) brk)
 		gLoopDepth++
+		post := gstmt(x.Post)
+		if post == ".skip" {
+			post = ""
+		}
+		gContPost = append(gContPost, post)
 		body := gseq([]string{gstmt(x.Body), gstmt(x.Post)})
+		gContPost = gContPost[:len(gContPost)-1]
 		gLoopDepth--
 		if x.Cond != nil {
 			body = fmt.Sprintf("(.ite %s %s .brk)", gexpr(x.Cond), body)
@@ -452,9 +462,13 @@ func gstmt1(s ast.Stmt) string {
 // rangeBody: the body of a counted range loop. `continue` inside it must still increment the index:
 // bodies containing an unlabelled `continue` are wrapped so that the increment follows (a one-shot
 // inner loop turns `cont` into leaving the body).
+// gContPost: per enclosing loop, the rendering of the statement a `continue` has to run first ("" = none)
+var gContPost []string
+
 func rangeBody(b *ast.BlockStmt) string {
 	gLoopDepth++
-	defer func() { gLoopDepth-- }()
+	gContPost = append(gContPost, "")
+	defer func() { gLoopDepth--; gContPost = gContPost[:len(gContPost)-1] }()
 	hasCont := false
 	ast.Inspect(b, func(n ast.Node) bool {
 		if br, ok := n.(*ast.BranchStmt); ok && br.Tok == token.CONTINUE {
@@ -503,6 +517,13 @@ var gstmtFuncs = map[string]bool{
 	"cli.main": true, "cli.parseUint16": true, "cli.parseInt16": true, "cli.parseUint32": true, "cli.parseInt32": true, "cli.parseFloat32": true,
 	"cli.parseUint64": true, "cli.parseInt64": true, "cli.parseFloat64": true, "cli.parseAddressAndQuantity": true, "cli.parseUnitId": true, "cli.parseHexBytes": true,
 	"crc.init": true, "crc.add": true, "crc.value": true, "crc.isEqual": true,
+	// the rest of the package and of the tool, so that the tables over `gstmtTable` (element stores,
+	// copies) range over everything but the help text
+	"NewClient": true, "NewServer": true, "LoadCertPool": true, "newTCPTransport": true, "newLogger": true,
+	"logger.Info": true, "logger.Infof": true, "logger.Warning": true, "logger.Warningf": true, "logger.Error": true,
+	"logger.Errorf": true, "logger.Fatal": true, "logger.Fatalf": true, "logger.write": true, "Error.Error": true,
+	"cli.performBoolScan": true, "cli.performRegisterScan": true, "cli.performUnitIdScan": true, "cli.performPing": true,
+	"cli.decodeString": true,
 	"uint32ToBytes": true, "uint64ToBytes": true, "float32ToBytes": true, "float64ToBytes": true,
 	"bytesToUint32s": true, "bytesToUint64s": true, "bytesToFloat32s": true, "bytesToFloat64s": true,
 	"uint16ToBytes": true, "bytesToUint16": true, "encodeBools": true, "decodeBools": true, "bytesToUint16s": true, "uint16sToBytes": true,
